@@ -112,6 +112,14 @@ def c12_sweep(agg, tier):
             if tier != "quick" and j < 8:
                 for variant in runner.DUET2:
                     tasks.append((seed, list(site), variant, op_))
+        if len(order) <= 3:
+            # a site that only a few operations reach (a memo inside one function) gets its duets on up to three
+            # programs per operation: whether the leak shows depends on the operands and parameters the doubled call
+            # happens to have (an angle of 0, an axis that is a copy of the first call's)
+            for op_ in order:
+                for _idx, seed2 in agg.get("site_op_seeds", {}).get((tuple(site), op_), [])[1:]:
+                    for variant in ("duet_pre", "duet_post"):
+                        tasks.append((seed2, list(site), variant, op_))
     return tasks
 
 
